@@ -7,8 +7,8 @@ VERIF_DIR="$(cd "$(dirname "$0")/.." && pwd)"
 cd "$VERIF_DIR/fuzz" || exit 2
 case "$ID" in
   C03|C06) TARGET=fuzz_decoders; RUNS=${VERIF_FUZZ_RUNS:-500000}; MAXLEN=2400 ;;
-  C07) TARGET=fuzz_codec; RUNS=${VERIF_FUZZ_RUNS:-3000000}; MAXLEN=1300 ;;
-  C09) TARGET=fuzz_sampler; RUNS=${VERIF_FUZZ_RUNS:-3000000}; MAXLEN=400 ;;
+  C07) TARGET=fuzz_codec; RUNS=${VERIF_FUZZ_RUNS:-20000000}; MAXLEN=1300 ;;
+  C09) TARGET=fuzz_sampler; RUNS=${VERIF_FUZZ_RUNS:-20000000}; MAXLEN=400 ;;
   *) exit 0 ;;
 esac
 WORKERS=${VERIF_FUZZ_WORKERS:-8}
